@@ -263,3 +263,57 @@ def order(prop, seed):
     while math.gcd(stride, n) != 1:
         stride += 2
     return start, stride, n
+
+
+# --------------------------------------------------------------------------
+# Extended (thorough tier only): dense line-granular sweeps
+# --------------------------------------------------------------------------
+def ext_cases(prop):
+    key = "ext:" + prop
+    if key in _CACHE:
+        return _CACHE[key]
+    cases = []
+    if prop == "C12":
+        # an asynchronous abort at every 5th line event of the parse of every
+        # construct snippet (about 60-80 line events per token), then probes
+        progs = _programs()
+        for si, items in enumerate(progs):
+            for k in range(1, 70 * max(4, _ntok(items)), 5):
+                cases.append((si, k))
+    else:
+        # one pre-emption at every 3rd line event of A's parse, B (a partner
+        # with clashing names) runs to completion in between
+        progs = _pair_programs()
+        n = len(progs)
+        for ai in range(n):
+            bi = (ai + 1 + H("linepartner", ai) % (n - 1)) % n
+            for k in range(1, 70 * max(4, _ntok(progs[ai])), 3):
+                cases.append((ai, bi, k))
+    _CACHE[key] = cases
+    return cases
+
+
+def ext_spec(prop, j):
+    c = ext_cases(prop)[j]
+    if prop == "C12":
+        si, k = c
+        items = _programs()[si]
+        p1 = list(CLASH_PROBES[H("xp1", j) % len(CLASH_PROBES)])
+        obj = "P0" if j % 2 else "P1"
+        ops = [
+            {"op": "parse", "obj": obj, "filename": "a.c", "items": list(items), "fault": {"kind": "line-abort", "at": k, "exc": EXCS[j % 3]}},
+            {"op": "parse", "obj": obj, "filename": "probe.c", "items": p1},
+            {"op": "parse", "obj": obj, "filename": "a.c", "items": list(items)},
+        ]
+        return {"property": "C12", "mode": "token", "check_fresh": True, "policy": {"kind": "rtc"},
+                "actors": [{"reuse": True, "ops": ops}], "swarm": {"faulty": True, "style": "sweep:dense-line-abort"}}
+    ai, bi, k = c
+    progs = _pair_programs()
+    actors = [
+        {"reuse": False, "ops": [{"op": "parse", "filename": "act0.c", "items": list(progs[ai]), "obj": "P1" if j % 2 else "P0"}], "kind": "dense"},
+        {"reuse": False, "ops": [{"op": ["parse", "roundtrip"][j % 2], "filename": "act1.c", "items": list(progs[bi])}], "kind": "dense"},
+    ]
+    for i, a in enumerate(actors):
+        a["markers"] = {"strings": ["act%d.c" % i], "line_block": None, "not_for": {}}
+    return {"property": "C13", "mode": "line", "policy": {"kind": "sweep"}, "schedule": [[0, k], [1, 1 << 40], [0, 1 << 40]],
+            "actors": actors, "check_fresh": False, "swarm": {"faulty": False, "theme": "sweep:dense-line"}}
